@@ -26,7 +26,7 @@ diag_solver_real = partial(e7b.rule_diagonal_solver, complex_energies=False)  # 
 
 # ideal DSL semantics tied to the code: shared by the algorithm-level properties
 CORE = [e1b.rule_projection_pairs, e1b.rule_scope_flags, e2c.rule_product_by_order, e2c.rule_adjoint_fill, e2c.rule_cauchy_wiring,
-        e4.rule_value_preserving, tv_shipped, e9.rule_runtime_support, e11.rule_helpers,
+        e4.rule_value_preserving, tv_shipped, e9.rule_runtime_support, e9.rule_exec_scope, e11.rule_helpers,
         # what the series H *is*: input normalisation of symbolic / list / dict Hamiltonians (Taylor coefficients, order keys)
         e2b.rule_taylor, e2b.rule_key_normalisation]
 
@@ -115,8 +115,8 @@ prop(
     "C07", level="other", selftest=["block_diagonalization", "second_quantization", "number_ordered_form", "algorithms"],
     rules=[main_e1, wf_main, e12.rule_operator_mode, e7.rule_solve_scalar, e1b.rule_projection_pairs, e1b.rule_scope_flags,
            e10.rule_operator_order, e10.rule_fermion_crossing, e10.rule_shift_table, e10.rule_linear_structure,
-           e2c.rule_product_by_order, e2c.rule_cauchy_wiring, e2c.rule_adjoint_fill, tv_shipped, e9.rule_runtime_support,
-           e11.rule_helpers, e4.rule_loop_carried_state],
+           e2c.rule_product_by_order, e2c.rule_cauchy_wiring, e2c.rule_adjoint_fill, tv_shipped, e9.rule_runtime_support, e9.rule_exec_scope,
+           e11.rule_helpers, e4.rule_loop_carried_state, e4.rule_memo_key],
     explanation=(
         "Narrow claim: ONE clause of C07 is decided, the last one -- `the operator results also satisfy U†U = 1 and "
         "U†HU = H_tilde within the operator algebra`. E1's certificate of `main` is an identity of the free *-algebra, so it "
@@ -140,7 +140,7 @@ prop(
 prop(
     "C08", level="other", selftest=["number_ordered_form"],
     rules=[e10.rule_operator_order, e10.rule_fermion_crossing, e10.rule_shift_table, e10.rule_linear_structure,
-           e4.rule_loop_carried_state],
+           e4.rule_loop_carried_state, e4.rule_memo_key],
     explanation=(
         "Necessary conditions of faithfulness decided from number_ordered_form.py: (i) the order in which __mul__ "
         "applies the right operand's creation / annihilation operators equals the order as_expr denotes (extracted and "
@@ -155,7 +155,7 @@ prop(
     "C09", level="translation_validation", selftest=["algorithm_parsing", "series"],
     rules=[e9.rule_translation, e9.rule_translation_corpus, e9.rule_runtime_support, wf_all, e2c.rule_adjoint_fill, e8.rule_implicit_wiring,
            e2c.rule_cauchy_wiring, e2c.rule_product_by_order,  # declared products and their Hermiticity shortcut
-           e9.rule_deletion_safe],
+           e9.rule_deletion_safe, e9.rule_exec_scope],
     explanation=(
         "The repository's own _parse_algorithm is queried (subprocess, tree under analysis) for the generated "
         "series_eval ASTs of `main`, `nonhermitian` and the documented example; each is interpreted abstractly per "
@@ -170,7 +170,7 @@ prop(
 prop(
     "C10", level="other", selftest=["series", "block_diagonalization", "algorithm_parsing"],
     rules=[e4.rule_no_inplace_mutation, e4.rule_closure_state, e3.rule_memo_owner, e3.rule_typestate,
-           e7b.rule_shared_eigenvalue_check, e4.rule_loop_carried_state, e9.rule_deletion_safe],
+           e7b.rule_shared_eigenvalue_check, e4.rule_loop_carried_state, e4.rule_memo_key, e9.rule_deletion_safe],
     explanation=(
         "Structural cause of history independence: evals are pure and the memo is disciplined. Flow-sensitive "
         "freshness analysis over every function of the evaluation modules (in-place sinks: augmented assignment, item "
